@@ -238,10 +238,11 @@ void pv_world_table(polyseed_dependency* t, int tag, bool with_time, bool with_a
         if (with_alloc) t->alloc = A_alloc;
         if (with_free) t->free = A_free;
     } else {
-        t->randbytes = B_randbytes; t->pbkdf2_sha256 = B_pbkdf2; t->memzero = B_memzero; t->u8_nfc = B_nfc; t->u8_nfkd = B_nfkd;
-        if (with_time) t->time = B_time;
-        if (with_alloc) t->alloc = B_alloc;
-        if (with_free) t->free = B_free;
+        /* set B is written the way a caller bound to the published layout writes it (positional initialiser, a binding generated
+         * from the released header): randbytes, pbkdf2_sha256, memzero, u8_nfc, u8_nfkd, time, alloc, free - the order of the
+         * pinned release.  Set A uses member names.  A header that reorders members of equal type compiles and is noticed here */
+        polyseed_dependency p = { B_randbytes, B_pbkdf2, B_memzero, B_nfc, B_nfkd, with_time ? B_time : NULL, with_alloc ? B_alloc : NULL, with_free ? B_free : NULL };
+        *t = p;
     }
 }
 void pv_world_init(uint64_t seed) {
